@@ -36,11 +36,17 @@ func verifObjectK(name string, nkinds, maxLen int) vkObj {
 			}
 			return vkObj{arr, k, eks}
 		}
+		// n entries under any n of the keys a, b, c: two maps of one size may
+		// have different key sets
 		m := make(Map, n)
 		keys := []string{"a", "b", "c"}
-		for i := 0; i < n; i++ {
+		for i, ki := 0, 0; i < n; i++ {
+			for ki < len(keys)-(n-i) && verifrt.Choice(name+".skip", 2) == 1 {
+				ki++
+			}
 			eks[i] = verifrt.Choice(name+".ek", vkUndefined+1)
-			m[keys[i]] = verifScalar(name+".e", eks[i])
+			m[keys[ki]] = verifScalar(name+".e", eks[i])
+			ki++
 		}
 		return vkObj{m, k, eks}
 	case vkString:
